@@ -20,7 +20,7 @@ import glob, json, os, subprocess, sys, time
 NAN_W = -1
 
 
-def record(workdir, target_dir, log=lambda s: None, features=None):
+def record(workdir, target_dir, log=lambda s: None, features=None, repo="/repo"):
     """Runs /repo's test suite with the mutation hook on; returns (records, info)."""
     prefix = os.path.join(workdir, "rt")
     env = dict(os.environ)
@@ -29,7 +29,7 @@ def record(workdir, target_dir, log=lambda s: None, features=None):
     t0 = time.time()
     cmd = ["cargo", "test", "--offline", "--workspace", "--no-fail-fast"]
     try:
-        r = subprocess.run(cmd, cwd="/repo", env=env, capture_output=True, text=True, timeout=1800)
+        r = subprocess.run(cmd, cwd=repo, env=env, capture_output=True, text=True, timeout=1800)
         out = r.stdout + r.stderr
     except subprocess.TimeoutExpired as e:
         # a test that does not return: the records written so far are still validated
